@@ -75,12 +75,15 @@ RULE = ("api: every single op from every small state (exhaustive), then seeded r
 EXHAUSTIVE = True
 EXHAUSTIVE_SCOPE = {
     "quick": "api: texts over {a,\\n} len<=2 x all cursors x every single op; keys: every bound key once from 5 "
-             "editor states x 3 documents (+ a sample of the Vi operator x text-object grammar)",
+             "editor states x 3 documents; Vi block insert (C-v motion I|A + one key) and completion-menu "
+             "sequences (starter, count, navigation key) in full; samples of the other thorough families",
     "thorough": "api: texts over {a,\\n,世} len<=3 x all cursors x every single op; keys: every bound key once "
                 "from 5 editor states x 3 documents, and every ordered pair over 116 keys (all named keys + 48 "
                 "printable command keys) from Vi navigation, and named-first pairs from Vi insert and Emacs; the Vi "
                 "grammar [count] operator (12) x motion/text-object (79) x 3 documents and visual mode (3) x object x "
-                "operator (14); Emacs numeric arguments (-, 0, -3, 12) before every key x 3 documents x 3 clipboards",
+                "operator (14); Emacs numeric arguments (-, 0, -3, 12) before every key x 3 documents x 3 clipboards; Vi block insert "
+                "(10 motions x I|A x all 1- and 2-key tails over 7 keys x 5 documents); completion menus (starter x "
+                "count x navigation x navigation, Vi and Emacs, 3 documents)",
 }
 TRUSTED = ["harness/c05.py + c05_editor.py: the tracing Buffer subclass logs every call of a state-writing primitive "
            "(outermost only) and the state after it; key sessions are run once per check, inside the generating "
@@ -799,7 +802,9 @@ def rand_text(rng, ml):
 
 
 SNIPPETS = [["escape", "<flush>"], ["\"", "a", "y", "w"], ["\"", "a", "p"], ["q", "a"], ["q"], ["@", "a"],
-            ["c-v", "j", "I"], ["c-v", "l", "j", "A"], ["v", "i", "w"], ["v", "a", "("], ["V", "j", "d"], ["d", "d"],
+            ["c-v", "j", "I"], ["c-v", "l", "j", "A"], ["c-v", "k", "A"], ["c-v", "j", "$", "A"], ["c-v", "k", "l", "I"],
+            ["right", "right"], ["left", "x"], ["c-x", "c-l"], ["c-o", "5", "c-n"], ["c-o", "3", "down"],
+            ["escape", "5", "down"], ["escape", "4", "up"], ["c-i", "c-i"], ["c-n", "c-n"], ["c-p", "c-p"], ["v", "i", "w"], ["v", "a", "("], ["V", "j", "d"], ["d", "d"],
             ["c", "w"], ["y", "y", "p"], ["/", "a", "c-m"], ["?", "b", "c-m"], ["c-r", "a"], ["c-s", "a"],
             ["escape", "3"], ["escape", "-"], ["c-u"], ["c-x", "("], ["c-x", ")"], ["c-x", "e"], ["c-x", "c-x"],
             ["c-@", "c-e", "c-w"], ["c-@", "c-c"], ["c-k", "a", ":"], ["c-k", "a"], ["c-o", "d", "w"], ["g", "g"],
@@ -881,10 +886,43 @@ def gen_keys_cases(tier, rng):
                         if ro and (clip is not CLIPS[1] or doc == ""):
                             continue
                         negarg.append(keys_case(False, True, ro, doc, cur, HISTS[1], clip, pre + [kk, kk]))
+    # Vi block insert (insert-multiple mode): C-v <motion> I|A, then arrows / typed text / Backspace /
+    # Delete / Escape.  The first group (one key after I|A) is run in both tiers.
+    blk_core, blk_more = [], []
+    bmotions = [["k"], ["j"], ["l"], ["h"], ["$"], ["k", "l"], ["j", "$"], ["k", "h"], ["j", "j"], []]
+    btails = [["left"], ["right"], ["x"], ["世"], ["c-h"], ["delete"], ["escape"]]
+    bdocs = [("ab\ncd", 5), ("ab\ncd", 1), ("abc\nde\nf", 9), ("abc\nde\nf", 5), ("a\n\nbc", 5)]
+    for doc, cur in bdocs:
+        for mo in bmotions:
+            for ia in ("I", "A"):
+                pre = ["escape", "<flush>", "c-v"] + mo + [ia]
+                for t1 in btails:
+                    blk_core.append(keys_case(True, True, False, doc, cur, HISTS[0], CLIPS[0], pre + t1 + ["escape"]))
+                    for t2 in btails:
+                        blk_more.append(keys_case(True, True, False, doc, cur, HISTS[0], CLIPS[0],
+                                                  pre + t1 + t2 + ["right", "x", "escape"]))
+    # completion menus: line completion / C-n / C-p / Tab, then a count (C-o <n> in Vi, Esc <n> in Emacs)
+    # and a menu navigation key
+    comp_core, comp_more = [], []
+    cdocs = [("abc\nab zz", 6, HISTS[0]), ("al", 2, ["alpha beta", "alps"]), ("x\nab", 4, ["abc", "abd", "ab\nabe"])]
+    navs = [["c-n"], ["c-p"], ["up"], ["down"], ["pageup"], ["pagedown"], ["c-i"], ["s-tab"]]
+    for vi in (True, False):
+        starters = [["c-x", "c-l"], ["c-n"], ["c-p"], ["c-i"]] if vi else [["c-i"], ["c-i", "c-i"], ["escape", "/"]]
+        counts = [[], ["c-o", "2"], ["c-o", "5"], ["c-o", "9"], ["c-o"]] if vi else \
+                 [[], ["escape", "2"], ["escape", "5"], ["escape", "9"], ["escape", "-"], ["escape", "0"]]
+        for doc, cur, hist in cdocs:
+            for st in starters:
+                for cn in counts:
+                    for nv in navs:
+                        comp_core.append(keys_case(vi, True, False, doc, cur, hist, CLIPS[0], st + cn + nv))
+                        for nv2 in navs:
+                            comp_more.append(keys_case(vi, True, False, doc, cur, hist, CLIPS[0],
+                                                       st + cn + nv + cn + nv2 + ["c-m"]))
     if tier == "thorough":
-        out += grammar + negarg
+        out += grammar + negarg + blk_core + blk_more + comp_core + comp_more
     else:
         out += rng.sample(grammar, 250) + rng.sample(negarg, 400)
+        out += blk_core + rng.sample(blk_more, 200) + comp_core + rng.sample(comp_more, 300)
     nrand = 1200 if tier == "quick" else 30000
     for _ in range(nrand):
         vi = rng.random() < 0.65
